@@ -40,7 +40,7 @@ func c17Mutate(rt *rapid.T, text string) (string, string) {
 	toks, _ := recog.Lex(text, false)
 	r := []rune(text)
 	kind := rapid.SampledFrom([]string{"delete_token", "duplicate_token", "swap_tokens", "replace_token", "insert_token", "delete_char", "insert_char", "replace_char", "truncate",
-		"literal_int", "literal_string", "literal_float", "duplicate_rule", "salience_value"}).Draw(rt, "mutation")
+		"literal_int", "literal_string", "literal_float", "duplicate_rule", "salience_value", "empty_part"}).Draw(rt, "mutation")
 	pickKind := func(ks ...recog.Kind) (recog.Token, bool) {
 		var cand []recog.Token
 		for _, t := range toks {
@@ -56,6 +56,33 @@ func c17Mutate(rt *rapid.T, text string) (string, string) {
 		return cand[rapid.IntRange(0, len(cand)-1).Draw(rt, "literal_tok")], true
 	}
 	switch kind {
+	case "empty_part":
+		// a whole part of a rule is left out: everything between `then` and the closing brace, between `when`
+		// and `then`, or between the braces; what remains between the two tokens is drawn (nothing, a blank, a
+		// line break, a comment, a lone semicolon)
+		pairs := [][2]recog.Kind{{recog.THEN, recog.RBRACE}, {recog.WHEN, recog.THEN}, {recog.LBRACE, recog.RBRACE}, {recog.THEN, recog.SEMICOLON}}
+		pr := pairs[rapid.IntRange(0, len(pairs)-1).Draw(rt, "part")]
+		var starts []int
+		for i, t := range toks {
+			if t.K == pr[0] {
+				starts = append(starts, i)
+			}
+		}
+		if len(starts) > 0 {
+			i := starts[rapid.IntRange(0, len(starts)-1).Draw(rt, "part_at")]
+			for j := i + 1; j < len(toks); j++ {
+				if toks[j].K == pr[1] {
+					fill := rapid.SampledFrom([]string{" ", "", "\n", " // todo\n", " /* */ ", " ; ", "\t"}).Draw(rt, "part_fill")
+					return string(r[:toks[i].End]) + fill + string(r[toks[j].Start:]), kind
+				}
+			}
+		}
+		if len(toks) == 0 {
+			return text + " then }", "insert_token"
+		}
+		kind = "delete_token"
+		t := toks[rapid.IntRange(0, len(toks)-1).Draw(rt, "tok")]
+		return string(r[:t.Start]) + string(r[t.End:]), kind
 	case "literal_int":
 		if t, ok := pickKind(recog.DEC_LIT, recog.HEX_LIT, recog.OCT_LIT); ok {
 			v := rapid.SampledFrom([]string{"9223372036854775807", "9223372036854775808", "99999999999999999999", "0x7fffffffffffffff", "0x8000000000000000", "0777777777777777777777", "01000000000000000000000", "2147483648", "0", "00", "0x0"}).Draw(rt, "int_text")
@@ -290,6 +317,29 @@ func c17Check(old []*gast.Rule, text string, st *facts.State) (v []string, verdi
 				for _, n := range oldNames {
 					if !sinkEqual(before[n], after[n]) {
 						v = append(v, fmt.Sprintf("after the rejected text rule %s behaves differently: before match=%v sink=%v, after match=%v sink=%v", n, before[n].Match, before[n].Sink, after[n].Match, after[n].Sink))
+					}
+				}
+			}
+		}
+	}
+	// the same two resources handed to the batch entry point in one call: the outcome is the same - the first
+	// resource's rules are in force and behave as before, whatever happens to the second resource
+	if len(old) > 0 && len(text) < 4096 && len(v) == 0 {
+		libB := ast.NewKnowledgeLibrary()
+		berrB, panB := obs.BuildBatch(libB, obs.KBName, obs.KBVersion, []string{oldText, text})
+		switch {
+		case panB != nil:
+			v = append(v, fmt.Sprintf("BuildRuleFromResources panicked (%v); the second resource is %s (%s)", panB, verdict.V, verdict.Reason))
+		case (berrB == nil) != (berr == nil):
+			v = append(v, fmt.Sprintf("BuildRuleFromResources on [rules loaded before, text] returned %v, the two single calls returned nil and %v", berrB, berr))
+		case berrB != nil:
+			after, oerr := c17Observe(libB, oldNames, st)
+			if oerr != nil {
+				v = append(v, fmt.Sprintf("batch entry point: after the rejected second resource the rules of the first one can no longer be used: %v", oerr))
+			} else {
+				for _, n := range oldNames {
+					if !sinkEqual(before[n], after[n]) {
+						v = append(v, fmt.Sprintf("batch entry point: after the rejected second resource rule %s of the first one behaves differently: alone match=%v sink=%v, now match=%v sink=%v", n, before[n].Match, before[n].Sink, after[n].Match, after[n].Sink))
 					}
 				}
 			}
